@@ -1373,7 +1373,8 @@ class Store:
                 zip(daughters, daughter_states):
             # use initial state as default, merge in divided values
             merged_initial_state = deep_merge(
-                daughter_state, daughter.get('initial_state', {}))
+                copy.deepcopy(daughter_state),
+                daughter.get('initial_state', {}))
 
             daughter_key = daughter['key']
             daughter_path = (daughter_key,)
